@@ -110,9 +110,10 @@ func subjectStatus(s ro.Subject[int]) string {
 
 // subjClient drives one subject on behalf of the numbered subscriber identities.
 type subjClient struct {
-	subject ro.Subject[int]
-	recs    []*Recorder
-	subs    []ro.Subscription
+	subject   ro.Subject[int]
+	recs      []*Recorder
+	subs      []ro.Subscription
+	afterNext func() // concurrent runs: called inside every Next callback (yield point); nil otherwise
 }
 
 func newSubjClient(s ro.Subject[int], ids int) *subjClient {
@@ -135,7 +136,11 @@ func (c *subjClient) apply(o subjOp, mark int) {
 		c.subject.CompleteWithContext(ctx)
 	case 'S':
 		if o.arg < len(c.subs) && c.subs[o.arg] == nil {
-			c.subs[o.arg] = c.subject.SubscribeWithContext(ctx, observer[int](c.recs[o.arg]))
+			obs := observer[int](c.recs[o.arg])
+			if c.afterNext != nil {
+				obs = roObserverBlocking(c.recs[o.arg], c.afterNext)
+			}
+			c.subs[o.arg] = c.subject.SubscribeWithContext(ctx, obs)
 		}
 	case 'U':
 		if o.arg < len(c.subs) && c.subs[o.arg] != nil {
